@@ -13,6 +13,7 @@ RULE = ('Hypothesis draws histories (lists of up to 10 / 30 operations, interpre
         'unlock-and-sign, derive and keep a public twin, copy (continue on the copy), export/import binary or armored (continue on the import); the invariants run after '
         'every applied step; a bounded systematic enumeration of all sequences of length <= 3 over a 9-operation alphabet on one key is added. Non-trivial: a history with a '
         're-certification or revocation followed by a further step, or an export/import or copy in the middle; distinct by operation-name sequence.')
+RULE += ' Key revocations are also issued by a designated revoker of the key (reported) and by a key that was never authorised (not reported).'
 ASSUMPTIONS = ['on a creation-time tie between self-signatures either tied value is accepted', 'identities that carry a revocation are not checked for effective values',
                'refpgp.grammar/sig decide validity of the exported certificate']
 
